@@ -49,6 +49,15 @@ CLAIMED = {
  "C18": ("accessor-rule monitor (oracle written with strconv/net/url) and cookie round-trip monitor incl. all 256 single bytes",
          "Every accessor reading of every generated request follows the present/default/zero rule with standard parsing; every generated cookie value (all single bytes exhaustively) reads back byte for byte. Exploration.",
          "`present` is what net/url parses.", "DESIGN.md §5 C18"),
+ "C04": ("reference-model monitor with acceptable-value sets over the harness's own registration table; reflective path vs hand-written FastInvoker wrappers vs built-in wrappings; real application/request scopes",
+         "For every generated registration history, scope nesting and signature each argument is a value the nearest-scope rule allows, unresolved parameters give an error naming the type without running the body, results come back unchanged, and request-scoped values are gone in the next request. Exploration.",
+         "Where several implementors are registered in one scope any of them is accepted (the implementation iterates a map). reflect.Type.Implements is trusted.", "DESIGN.md §5 C04"),
+ "C05": ("Go race detector (happens-before) over cold instances under a concurrent stress workload, plus serial-twin equality and token-isolation monitors",
+         "No race report with a framework frame in any explored execution; every concurrent response equals the response of the same request served alone on an identical instance and contains no other request's token. Exploration: the schedules actually produced (max in-flight and overlap counts are in the evidence).",
+         "The race detector only sees accesses that occur and keeps a bounded shadow history; schedule-dependent logic errors without a data race are found only if the injected yields produce the schedule.", "DESIGN.md §5 C05"),
+ "C07": ("totality monitor: recover() around ServeHTTP, chain counter, reference model for the chosen chain, repeat-and-rebuild equality",
+         "For every generated valid route set and hostile request exactly one chain runs (the model's route or the not-found chain), nothing panics, and the outcome is identical on repetition and on an identically rebuilt instance. Exploration.",
+         "req.URL non-nil; deterministic handlers.", "DESIGN.md §5 C07"),
 }
 
 NOT_YET = {
